@@ -6,6 +6,7 @@ open SSVerif.LogAdd
 #print axioms C19_logAdd_mono
 #print axioms C19_logAdd_accurate
 #print axioms C19_tables_checked
+#print axioms C19_width_boundary
 #print axioms C19_logAdd_spec
 #print axioms C19_logAdd_is_rounded_log_of_sum
 #print axioms C19_t0_is_log2
